@@ -6,10 +6,12 @@ package main
 
 import (
 	"fmt"
+	"net"
 	"sort"
 	"strings"
 	"sync/atomic"
 	"testing"
+	"time"
 
 	"vf/ev"
 	"vf/sip"
@@ -442,6 +444,71 @@ func TestVerifC18(t *testing.T) {
 		}
 		run.Observe("distinct_to_hosts_routed_through_one_listener", len(want))
 	}
+	// the answer does not depend on what became of earlier requests either: requests for hosts
+	// whose next hop (tcp) refuses the connection pass through a real listener, then the same
+	// hosts are looked up again - in the table and as a request meets it
+	{
+		pcr := NewPreConfigRoute()
+		dead1, dead2 := c18ClosedPort(), c18ClosedPort()
+		pcr.AddRouteItem("tcp", "gw.example.com", fmt.Sprintf("127.6.0.1:%d", dead1))
+		pcr.AddRouteItem("tcp", "*.example.com", fmt.Sprintf("127.6.0.2:%d", dead2))
+		pcr.AddRouteItem("udp", "*.example.org", "127.6.0.3:6000")
+		pcr.AddRouteItem("udp", "default", "127.6.0.4:6000")
+		sinks := newVfSinks()
+		sinks.listenUDP("127.6.0.3:6000")
+		sinks.listenUDP("127.6.0.4:6000")
+		fx, err := newVfFixture("c18f.verif.test", "127.6.0.10", 5060, nil, 1200, false, false, false, pcr, nil)
+		if err != nil {
+			run.Inconclusive(1)
+		} else {
+			type ans struct {
+				proto, host string
+				port        int
+				err         bool
+			}
+			look := func(h string) ans {
+				proto, host, port, err := pcr.FindRoute(h)
+				return ans{proto, host, port, err != nil}
+			}
+			hostsF := []string{"gw.example.com", "x.example.com", "y.example.org", "other.net"}
+			before := map[string]ans{}
+			for _, h := range hostsF {
+				before[h] = look(h)
+			}
+			req := func(h, id string) []byte {
+				return []byte("MESSAGE sip:x@foreign.example SIP/2.0\r\nVia: SIP/2.0/UDP 127.6.0.99:5060;branch=z9hG4bK" + id + "\r\nMax-Forwards: 70\r\nFrom: <sip:a@b>;tag=1\r\nTo: <sip:bob@" + h + ">\r\nCall-ID: " + id + "@vf\r\nCSeq: 1 MESSAGE\r\nX-Vf-Probe: " + id + "\r\nContent-Length: 0\r\n\r\n")
+			}
+			failed := 0
+			for rnd := 0; rnd < 3 && run.Violations() <= 10; rnd++ {
+				for k, h := range []string{"gw.example.com", "x.example.com"} {
+					fx.inject("127.6.0.99", 5060, req(h, fmt.Sprintf("c18f-%d-%d", rnd, k)))
+					failed++
+				}
+				// behind them, through the same loop: one that has somewhere to go
+				mid := fmt.Sprintf("c18f-mark-%d", rnd)
+				fx.inject("127.6.0.99", 5060, req("other.net", mid))
+				if len(sinks.wait(mid, 1, 20*time.Second)) == 0 {
+					run.Violation("a request for a host of the default entry was not relayed after requests whose next hop refused the connection", map[string]any{"round": rnd})
+					break
+				}
+				for _, h := range hostsF {
+					if a := look(h); a != before[h] {
+						run.Violation("the table answers differently for a host after a request to its next hop could not be sent", map[string]any{"host": h, "before": fmt.Sprintf("%+v", before[h]), "after": fmt.Sprintf("%+v", a), "requests_whose_next_hop_refused": failed})
+					}
+					if msg, err := vfParseUDP(req(h, "c18f-look")); err == nil {
+						host, port, proto, err := fx.proxy.getNextRequestHop(msg)
+						b := before[h]
+						if (err != nil) != b.err || (err == nil && (host != b.host || port != b.port || !strings.EqualFold(proto, b.proto))) {
+							run.Violation("the routing step answers differently for a host after a request to its next hop could not be sent", map[string]any{"host": h, "table_answer_before": fmt.Sprintf("%+v", b), "request_path_answer": fmt.Sprintf("%s %s:%d err=%v", proto, host, port, err)})
+						}
+					}
+					run.Eval(fmt.Sprintf("after-failed-send|%d|%s", rnd, h))
+				}
+			}
+			run.Observe("requests_whose_static_next_hop_refused_the_connection", failed)
+		}
+		sinks.close()
+	}
 	// concurrent lookups on one table (the listeners of a service share it): same answers
 	{
 		table := []string{"*.b.c", "a.b.*", "*.example.com", "example.com", "default", "a.*.c"}
@@ -522,4 +589,14 @@ func TestVerifC18(t *testing.T) {
 	run.Exhaustive(false)
 	run.Assume(fmt.Sprintf("exhaustive over tables of <= %d entries from %d patterns and %d hosts; random tables beyond that", maxEntries, len(patterns), len(hosts)))
 	vfFinish(t, run, 1000)
+}
+
+func c18ClosedPort() int {
+	ln, err := net.Listen("tcp", "127.0.0.1:0")
+	if err != nil {
+		return 1
+	}
+	p := ln.Addr().(*net.TCPAddr).Port
+	ln.Close()
+	return p
 }
